@@ -11,11 +11,11 @@ import enum
 import math
 import struct
 from dataclasses import make_dataclass
-from typing import Annotated, Optional
+from typing import Annotated, NewType, Optional
 
 import pyarrow as pa
 
-from vgi_rpc.utils import ArrowSerializableDataclass, ArrowType
+from vgi_rpc.utils import ArrowSerializableDataclass, ArrowType, Transient
 
 
 class Color(enum.Enum):
@@ -58,7 +58,64 @@ MIXIN_BY_CLASS = {"senum": {"value_ne_name": [SColor.PIPE, SColor.HTTP], "value_
                   "ienum": {"int_valued": [IColor.LOW, IColor.HIGH, IColor.ZERO]}}
 ENUM_BY_CLASS = {"value_ne_name": [Color.RED, Color.BLACK], "value_is_other_name": [Color.GREEN], "int_valued": [Color.BLUE]}
 
-INT_RANGE = {"int": (-2**63, 2**63 - 1), "i8": (-128, 127), "i16": (-2**15, 2**15 - 1), "i32": (-2**31, 2**31 - 1),
+@dataclasses.dataclass(frozen=True)
+class D0(ArrowSerializableDataclass):
+    """a serializable dataclass without any field"""
+
+
+@dataclasses.dataclass(frozen=True)
+class WarmParent(ArrowSerializableDataclass):
+    """base class for the "inherited" variant; its per-class caches are filled before any child is defined"""
+
+    p: int
+
+
+WarmParent(1).serialize_to_bytes() and WarmParent.deserialize_from_bytes(WarmParent(1).serialize_to_bytes())
+
+
+@dataclasses.dataclass(frozen=True)
+class DT(ArrowSerializableDataclass):
+    """a serializable dataclass whose only field is transient"""
+
+    t: Annotated[int, Transient()] = 5
+
+
+class Custom:
+    """user class stored as bytes: serialize_to_bytes / deserialize_from_bytes (the _BytesSerializable branch)"""
+
+    def __init__(self, b: bytes) -> None:
+        self.b = b
+
+    def serialize_to_bytes(self) -> bytes:
+        return b"C:" + self.b
+
+    @classmethod
+    def deserialize_from_bytes(cls, data, ipc_validation=None):
+        return cls(bytes(data)[2:])
+
+    def __eq__(self, o):
+        return isinstance(o, Custom) and o.b == self.b
+
+    def __hash__(self):
+        return hash(self.b)
+
+    def __repr__(self):
+        return f"Custom({self.b!r})"
+
+
+@dataclasses.dataclass(frozen=True)
+class NtInner(ArrowSerializableDataclass):
+    a: int
+    s: Optional[str] = None
+
+
+NtInt = NewType("NtInt", int)
+NtStr = NewType("NtStr", str)
+NtBytes = NewType("NtBytes", bytes)
+NtEnum = NewType("NtEnum", Color)
+NtDc = NewType("NtDc", NtInner)
+
+INT_RANGE = {"nt_int": (-2**63, 2**63 - 1), "ann_int": (-2**63, 2**63 - 1), "int": (-2**63, 2**63 - 1), "i8": (-128, 127), "i16": (-2**15, 2**15 - 1), "i32": (-2**31, 2**31 - 1),
              "u8": (0, 255), "u16": (0, 2**16 - 1), "u32": (0, 2**32 - 1), "u64": (0, 2**64 - 1)}
 INT_ARROW = {"i8": pa.int8(), "i16": pa.int16(), "i32": pa.int32(), "u8": pa.uint8(), "u16": pa.uint16(),
              "u32": pa.uint32(), "u64": pa.uint64()}
@@ -67,6 +124,11 @@ DEC_T = pa.decimal128(10, 2)
 LEAF_ANN: dict[str, object] = {
     "int": int, "float": float, "str": str, "bytes": bytes, "bool": bool, "enum": Color,
     "senum": SColor, "menum": MColor, "ienum": IColor,
+    "nt_int": NtInt, "nt_str": NtStr, "nt_bytes": NtBytes, "nt_enum": NtEnum, "nt_dc": NtDc,
+    "ann_int": Annotated[int, "just a doc string, no ArrowType"],
+    "dc0": D0, "dct": DT, "custom": Annotated[Custom, ArrowType(pa.binary())],
+    "f16": Annotated[float, ArrowType(pa.float16())],
+    "ts_ns": Annotated[dt.datetime, ArrowType(pa.timestamp("ns"))],
     **{k: Annotated[int, ArrowType(v)] for k, v in INT_ARROW.items()},
     "f32": Annotated[float, ArrowType(pa.float32())],
     "dec": Annotated[decimal.Decimal, ArrowType(DEC_T)],
@@ -103,6 +165,12 @@ def annotation(term) -> object:
         return LEAF_ANN[h]
     if h == "dc":
         return dc_class(term[1:])
+    if h == "dcb":
+        return Annotated[dc_class(term[1:]), ArrowType(pa.binary())]
+    if h == "opt" and term[1] == "dcb":
+        return Annotated[Optional[dc_class(term[2:])], ArrowType(pa.binary())]
+    if h == "opt" and term[1:] == ("custom",):     # the ArrowType marker stays on the field's own annotation
+        return Annotated[Optional[Custom], ArrowType(pa.binary())]
     inner = annotation(term[1:])
     if h == "opt":
         return Optional[inner]
@@ -114,14 +182,28 @@ def annotation(term) -> object:
 
 
 # ------------------------------------------------------------------------------------------ leaf values
-def f32_nearest(v: float) -> float:
-    """IEEE-754 round-to-nearest-even float32 image of a double (independent of pyarrow)."""
+def f32_nearest(v: float, fmt: str = "<f") -> float:
+    """IEEE-754 round-to-nearest-even float32 (fmt "<e": float16) image of a double (independent of pyarrow)."""
     if math.isnan(v) or math.isinf(v):
         return v
     try:
-        return struct.unpack("<f", struct.pack("<f", v))[0]
+        return struct.unpack(fmt, struct.pack(fmt, v))[0]
     except OverflowError:
         return math.copysign(math.inf, v)
+
+
+def lossy_image(leaf: str, v):
+    """The admissible image of a value of a 'narrowed' class: IEEE nearest for narrow floats, pyarrow's documented
+    coercion for naive/aware datetimes (aware -> UTC wall clock without zone; naive -> taken as UTC)."""
+    if leaf == "f32" and isinstance(v, float):
+        return f32_nearest(v)
+    if leaf == "f16" and isinstance(v, float):
+        return f32_nearest(v, "<e")
+    if leaf == "ts_us" and isinstance(v, dt.datetime) and v.tzinfo is not None:
+        return v.astimezone(UTC).replace(tzinfo=None)
+    if leaf == "ts_tz" and isinstance(v, dt.datetime) and v.tzinfo is None:
+        return v.replace(tzinfo=UTC)
+    return v
 
 
 def _rand_f32(rng) -> float:
@@ -247,10 +329,27 @@ def leaf_values(leaf: str, k: str, rng, n: int) -> list:
                "typical": [0.5, -1.25] + [_rand_f32(rng) for _ in range(n)],
                "inexact": [0.1, 1 / 3, 16777217.0] + [_rand_f64(rng) % 1e30 for _ in range(n)],
                "overflow": [1e39, -3.5e38, 1.7976931348623157e308], "underflow": [1e-46, -5e-324]}[k]
-    elif leaf == "str":
+    elif leaf == "f16":
+        out = {"zero": [0.0], "negzero": [-0.0], "nan": [math.nan], "inf": [math.inf, -math.inf], "max": [65504.0, -65504.0],
+               "typical": [0.5, -1.25, 6.103515625e-05, 5.960464477539063e-08], "inexact": [0.1, 1 / 3, 2049.0], "overflow": [70000.0, -1e10]}[k]
+    elif leaf == "custom":
+        out = {"empty": [Custom(b"")], "nul_ff": [Custom(b"\x00\xff\x00"), Custom(bytes(range(256)))]}[k]
+    elif leaf == "dc0":
+        out = [D0()]
+    elif leaf == "dct":
+        out = [DT(), DT(t=5)]
+    elif leaf == "nt_dc":
+        out = [NtDc(NtInner(1)), NtDc(NtInner(-2, "é"))]
+    elif leaf == "nt_enum":
+        out = [NtEnum(m) for m in ENUM_BY_CLASS[k]]
+    elif leaf == "ts_ns":
+        out = {"epoch": [dt.datetime(1970, 1, 1)], "micro": [dt.datetime(2020, 2, 29, 12, 0, 0, 123456), dt.datetime(1700, 1, 1, 0, 0, 0, 1),
+                                                              dt.datetime(2262, 4, 11)],
+               "out_of_ns_range": [dt.datetime(2263, 1, 1), dt.datetime(1, 1, 1)]}[k]
+    elif leaf in ("str", "nt_str"):
         out = {"empty": [""], "ascii": ["hello", " lead/trail ", "a" * 300], "nonascii": ["héllo ✓ 𝄞 中", "é", "‮́x", "🙂" * 40],
                "nul": ["a\x00b", "\x00"], "surrogate": ["\ud800", "ok\udfffx"]}[k]
-    elif leaf == "bytes":
+    elif leaf in ("bytes", "nt_bytes"):
         out = {"empty": [b""], "nul_ff": [b"\x00\xff\x00", b"\x00", bytes(range(256))], "long": [rng.randbytes(5000), rng.randbytes(70000)]}[k]
     elif leaf == "bool":
         out = {"true": [True], "false": [False]}[k]
@@ -264,10 +363,12 @@ def leaf_values(leaf: str, k: str, rng, n: int) -> list:
                "too_many_digits": [D("123456789.12"), D("1e9")], "too_fine": [D("1.234"), D("0.001")]}[k]
     elif leaf == "ts_us":
         out = {"epoch": [dt.datetime(1970, 1, 1)], "min": [dt.datetime(1, 1, 1)], "max": [dt.datetime(9999, 12, 31, 23, 59, 59, 999999)],
+               "aware": [dt.datetime(2020, 1, 1, 12, tzinfo=dt.timezone(dt.timedelta(hours=2))), dt.datetime(1999, 12, 31, 23, 59, 59, 999999, tzinfo=UTC)],
                "micro": [dt.datetime(2020, 2, 29, 12, 0, 0, 123456), dt.datetime(1969, 12, 31, 23, 59, 59, 999999)]
                + [dt.datetime(1970, 1, 1) + dt.timedelta(microseconds=rng.randint(-10**15, 10**17)) for _ in range(n)]}[k]
     elif leaf == "ts_tz":
-        out = {"utc": [dt.datetime(2020, 1, 1, tzinfo=UTC), dt.datetime(1970, 1, 1, 0, 0, 0, 1, tzinfo=UTC)],
+        out = {"naive": [dt.datetime(2020, 1, 1, 12), dt.datetime(1970, 1, 1, 0, 0, 0, 1)],
+               "utc": [dt.datetime(2020, 1, 1, tzinfo=UTC), dt.datetime(1970, 1, 1, 0, 0, 0, 1, tzinfo=UTC)],
                "offset": [dt.datetime(2020, 6, 1, 12, 30, tzinfo=dt.timezone(dt.timedelta(hours=5, minutes=30))),
                           dt.datetime(1999, 12, 31, 23, 59, 59, 999999, tzinfo=dt.timezone(dt.timedelta(hours=-11)))]}[k]
     elif leaf == "date":
@@ -304,7 +405,7 @@ def _wrap_single(term: tuple, leafval, ki: int = 0):
         return [inner]
     if h == "set":
         return frozenset([inner])
-    if h == "dc":
+    if h in ("dc", "dcb"):
         return dc_class(term[1:])(tag=7, v=inner)
     return {KEYS[h][ki % len(KEYS[h])]: inner}
 
@@ -320,7 +421,7 @@ def _outer(term: tuple, upto: int, inner):
     """wrap `inner` (a value of term[upto:]) in the non-container constructors term[:upto]"""
     for i in range(upto - 1, -1, -1):
         h = term[i]
-        if h == "dc":
+        if h in ("dc", "dcb"):
             inner = dc_class(term[i + 1:])(tag=3, v=inner)
         # opt: the value itself
     return inner
